@@ -199,3 +199,51 @@ def process_inputs(h):
     want_cb = vals.get('callback')
     h.check('callback-and-disp-handed-back-other-keywords-not-smuggled-in',
             'ok', ok=(set(cell) == {'callback', 'disp'} and cell['callback'] is want_cb and cell['disp'] == (True if 'disp' in vals else 0)))
+
+
+# ---------------------------------------------------------------------------- the run loop terminates
+LOOPS_T = dict([
+    loop(A, 'AbstractSolver._Solve', 0, 'while not stop',
+         ['isinstance(self._maxiter, int) and self._maxiter == entry(self._maxiter)'],
+         modifies=['self._stepmon._x'],
+         decreases='max(0, self._maxiter - self.generations) + (0 if stop else 1)'),
+])
+
+
+@contract('C05/AbstractSolver._Solve/terminates', ['C05'], A + '::AbstractSolver._Solve', loops=LOOPS_T, native=False,
+          note='Step is replaced by its own contract (C05/Step): when it returns None exactly one iteration was completed and '
+               'the generation limit is not reached yet; limits already normalised to ints (done by the first Terminated())')
+def solve_terminates(h):
+    """Solve always returns: with a finite generation limit the main loop has the variant
+    max(0, _maxiter - generations) (+1 while no stop has been reported), which every Step decreases"""
+    if not h.is_sym():
+        h.unsupported('symbolic only')
+    nrec = h.int('records')
+    h.assume('nrec >= 0', nrec=nrec)
+    stepmon = h.obj(MON, _x=h.list_real('stepmon_x', n=nrec), _y=h.clist([]), _id=h.clist([]), _info=h.clist([]), k=None, _npts=None, label='s')
+    mi = h.int('maxiter')
+    s = h.obj(A + '::AbstractSolver', _stepmon=stepmon, _maxiter=mi, _collapse=False, _energy_history=None, _solution_history=None)
+    epoch = {'n': 0}
+
+    def step(I, c, args, kwargs):
+        # contract of AbstractSolver.Step (contracts/solver_step.py): returns None  =>  one more generation, limit not reached
+        epoch['n'] += 1
+        b = z3.Bool('CONTINUE_%d' % epoch['n'])
+        lst = I.st.heap[I.st.heap[args[0]]['_stepmon']]['_x']
+        cell = dict(I.st.heap[lst])
+        gens_before = z3.If(cell['len'] - 1 > 0, cell['len'] - 1, 0)
+        if I.st.branch(b):
+            cell['len'] = cell['len'] + 1
+            I.st.heap[lst] = cell
+            gens_after = z3.If(cell['len'] - 1 > 0, cell['len'] - 1, 0)
+            I.st.assume(z3.And(gens_after == gens_before + 1, gens_after < Mo_zint(I.st.heap[args[0]]['_maxiter'])))
+            return None
+        grew = z3.Bool('BEGAN_%d' % epoch['n'])
+        if I.st.branch(grew):
+            cell['len'] = cell['len'] + 1
+            I.st.heap[lst] = cell
+        return SStr('stop-message')
+    from pyvc.values import zint as Mo_zint
+    h.set_summaries({(A, 'AbstractSolver.Step'): step})
+    h.call(h.getattr(s, '_Solve'), None, None, disp=False)
+    h.cover('returned')
